@@ -21,7 +21,8 @@ RULE = ("n = 1..3 qubits; base circuit on 2n visible modes generated from arbitr
         "(compared through U_full up to output phases); base circuit snapshot unchanged; a second process() call "
         "after an in-place edit of the base circuit reflects the edit. Non-trivial = state with a non-real amplitude "
         "ratio or entanglement; distinct = case JSON. Thorough tier shards run under different PYTHONHASHSEED "
-        "values (the request order comes from iterating a set).")
+        "values (the request order comes from iterating a set)."
+        " The callback may also consume the list it is handed, edit the circuits it is handed, or return numpy scalars; matrices returned by earlier process() calls must not change later.")
 ASSUMPTIONS = [
     "a post-selected entangling gate is only followed by local gates on its qubits (otherwise it does not "
     "implement its unitary); heralded gates anywhere",
